@@ -331,7 +331,7 @@ void PrettyPrinter::printTimeField(detail::OstreamBuffer& out, char spec, Broken
     out << bdt.tm_year + 1900;
     break;
   case 'y':
-    printTwoDigits(out, bdt.tm_year % 100);
+    printTwoDigits(out, ((bdt.tm_year % 100) + 100) % 100);
     break;
   case 'm':
     printTwoDigits(out, bdt.tm_mon + 1);
